@@ -500,6 +500,9 @@ SPECS["C04"]["parts"].append(dict(name="upstream-replies", pkg="internal/upstrea
                                                                   "harness/transport/zz_verif_c01up_test.go": "internal/upstream/transport/zz_verif_c01up_test.go"}),
                                   params={"quick": {"PROGLEN": 2}, "thorough": {"PROGLEN": 3}}, budget={"quick": 60, "thorough": 900}))
 SPECS["C08"]["parts"].append(_mem_e2("C08"))
+for _pid in ("C07", "C08"):
+    SPECS[_pid]["parts"].append(dict(name="redis", pkg="app/router", run="TestVerifRedis", go="go", engines=("report", "refdns", "env", "sched", "choice"), shards=1, gomaxprocs=4,
+                                     files={"harness/router/zz_verif_redis_test.go": "app/router/zz_verif_redis_test.go"}, budget={"quick": 120, "thorough": 120}))
 SPECS["C08"]["parts"].append(dict(name="mem-lifetime", pkg="internal/cache", run="TestVerifC08Mem", go="go1.26", env=E3ENV, gomaxprocs=1, engines=("choice", "report"), shards=8,
                                   files={"harness/cache/zz_verif_c08mem_test.go": "internal/cache/zz_verif_c08mem_test.go"},
                                   params={"quick": {"DEPTH": 3}, "thorough": {"DEPTH": 5}}, budget={"quick": 60, "thorough": 900}))
